@@ -82,6 +82,19 @@ def frames_iter(integ: str, cfg: dict, stmts_iter, entry: str):
     return mod.stream_frames(stream, stmts_iter)
 
 
+class _LazyIterator:
+    """A hand-written iterator (a database cursor, a message-queue consumer): __iter__/__next__, nothing else."""
+
+    def __init__(self, inner):
+        self._inner = inner
+
+    def __iter__(self):
+        return self
+
+    def __next__(self):
+        return next(self._inner)
+
+
 def write_run(integ: str, cfg: dict, stmts: list, entry: str, stop_after: int | None):
     """-> (log, frames_bytes list). log entries: ('PULL', i) / ('FRAME', j, nrows)."""
     log: list = []
@@ -92,7 +105,17 @@ def write_run(integ: str, cfg: dict, stmts: list, entry: str, stop_after: int | 
             log.append(("PULL", i))
             yield conv(s)
 
-    it = frames_iter(integ, cfg, source(), entry)
+    src = source()
+    kind = cfg.get("iterator_kind", "generator")
+    if kind == "map":
+        src = map(lambda x: x, src)                       # lazy, but not a generator object
+    elif kind == "iter-callable":
+        _end = object()
+        _g = src
+        src = iter(lambda: next(_g, _end), _end)          # callable_iterator
+    elif kind == "iterator-class":
+        src = _LazyIterator(src)
+    it = frames_iter(integ, cfg, src, entry)
     pulls_before_first_request = sum(1 for e in log if e[0] == "PULL")
     out = []
     j = 0
@@ -261,6 +284,10 @@ def write_case(ctx, rng):
     logical = rng.choice([pj.FLAT_LOGICAL[phys], pj.FLAT_LOGICAL[phys], 0])
     cfg = {"physical": phys, "frame_size": fs, "preset": gen.preset_for(rng, stmts, phys), "logical": logical,
            "delimited": True, "generalized": mode == "generic", "rdf_star": mode == "generic"}
+    if rng.random() < .3:
+        # the statements come from a lazy iterator that is not a generator object
+        cfg["iterator_kind"] = rng.choice(["map", "iter-callable", "iterator-class"])
+        ctx.observe(f"write:input-iterator:{cfg['iterator_kind']}")
     if rng.random() < .25:
         cfg["flow_instance"] = rng.choice(["FlatTriplesFrameFlow" if phys == 1 else "FlatQuadsFrameFlow", "BoundedFrameFlow"])
         cfg["logical"] = pj.FLAT_LOGICAL[phys]
